@@ -233,8 +233,8 @@ def check(ctx):
                f"{cls_}.__str__ = {fmt(rs.ret)} does not name metric / "
                f"relation / current unit", key=f"C12.5:{cls_}:str")
 
-    _units(ctx)
-    _companions(ctx)
+    ctx.section(_units, ctx)
+    ctx.section(_companions, ctx)
     # the unit named in title/label is the metric's unit attribute: it must be
     # the unit of the reduction for every relation (C01.3 / C02.6 instances)
     from ..core import import_rules
